@@ -177,3 +177,64 @@ def seq_keys(run):
             run.oracle_fail("seq_forward", {"in": td_keys, "out": out_keys}, f"eager branch={results[0]} compile branch={results[1]}", "seq_forward")
         else:
             run.oracle_ok("seq_forward")
+
+
+def prob_seq_keys(run):
+    """the same key union in `ProbabilisticTensorDictSequential.forward` (tensordict/nn/probabilistic.py), both branches
+    forced by patching `is_compiling` there; deterministic interaction type (the mean), recording subclass as above."""
+    import tensordict.nn.probabilistic as Pm
+    from tensordict import TensorDict
+    from tensordict.nn import InteractionType, ProbabilisticTensorDictModule, ProbabilisticTensorDictSequential, TensorDictModule
+    from torch.distributions import Normal
+
+    drv = run._drv
+    rng = run.rng
+    rec = []
+
+    class RecTD(TensorDict):
+        def update(self, other, **kw):
+            if self.__dict__.get("_rec_input") and kw.get("keys_to_update") is not None:
+                rec.append([_enc(k) for k in kw["keys_to_update"]])
+            return super().update(other, **kw)
+
+    n = 12 if run.tier == "quick" else 150
+    extras_pool = ["other", ("n", "x"), "z"]
+    for _ in range(n):
+        extras = rng.sample(extras_pool, rng.randint(0, 3))
+        overwrite_loc = rng.random() < 0.6
+        mods = []
+        if overwrite_loc:
+            mods.append(TensorDictModule(lambda x: x + 1, in_keys=["loc"], out_keys=["loc"]))
+        if extras and rng.random() < 0.5:
+            mods.append(TensorDictModule(lambda x: x + 5, in_keys=[extras[0]], out_keys=[extras[0]]))
+        prob = ProbabilisticTensorDictModule(in_keys=["loc", "scale"], out_keys=["sample"], distribution_class=Normal,
+                                             default_interaction_type=InteractionType.DETERMINISTIC)
+        seq = ProbabilisticTensorDictSequential(*mods, prob)
+        seq.select_out_keys("sample")
+        results, recs = [], []
+        in_keys = ["loc", "scale"] + extras
+        for comp in (False, True):
+            td = RecTD({}, batch_size=[2])
+            for k in in_keys:
+                td.set(k, torch.ones(2) if k == "scale" else torch.zeros(2))
+            td.__dict__["_rec_input"] = True
+            rec.clear()
+            with mock.patch.object(Pm, "is_compiling", lambda c=comp: c):
+                try:
+                    out = seq(td)
+                    results.append(sorted((_enc(k), v.tolist()) for k, v in out.items(True, True)))
+                except Exception as e:
+                    results.append("err:" + type(e).__name__)
+            recs.append(sorted(rec[-1]) if rec else None)
+        out_keys = [_enc(k) for k in seq.out_keys]
+        td_keys = [_enc(k) for k in in_keys]
+        m = parse_sx(drv.ask("(c18.seq_keys (" + " ".join(out_keys) + ") (" + " ".join(td_keys) + "))"))
+        run.case(("prob_seq_keys", tuple(td_keys), overwrite_loc, len(mods)))
+        run.count("prob_seq_keys.recorded", recs[0] is not None and recs[1] is not None)
+        if recs[0] is not None and recs[1] is not None:
+            run.corr("prob_seq_keys_eager", [out_keys, td_keys], recs[0], sorted(m[0]))
+            run.corr("prob_seq_keys_compile", [out_keys, td_keys], recs[1], sorted(m[1]))
+        if results[0] != results[1]:
+            run.oracle_fail("prob_seq_forward", {"in": td_keys, "out": out_keys}, f"eager branch={results[0]} compile branch={results[1]}", "prob_seq_forward")
+        else:
+            run.oracle_ok("prob_seq_forward")
